@@ -343,7 +343,7 @@ func TestC09(t *testing.T) {
 					ev.Class("systematic-version-markers")
 				}
 			}
-			r.Rapid("rapid", rig.Pick(12000, 80000), func(t *rapid.T) {
+			r.Rapid("rapid", rig.Pick(40000, 200000), func(t *rapid.T) {
 				c := c09Gen(t)
 				r.Check(t, "rapid", c, func() error { return c09Check(c) })
 				ev.Case(true, rig.Hash64(c.Header, c.Banks, c.Tail, c.FlipPos, c.FlipVal), func() interface{} { return c })
